@@ -2,6 +2,7 @@
 proved on a file-system model and tied to unpack.UnpackSquashedFromTarball by snapshot-exact correspondence; that no
 built-in plugin touches the scanned tree is a run-time observation, see the scan stream below)."""
 import binascii
+import collections
 import os
 import re
 
@@ -182,7 +183,7 @@ def run(ctx):
     def classify(case, fi, fm):
         return 'err=%s contained=%s h=%s' % (fi.get('err', fi.get('_')), fm.get('contained'), fm.get('h'))
 
-    if ctx.replay and any(l.startswith('load ') for l in open(ctx.replay)):
+    if ctx.replay and any(l.startswith(('load ', 'load2 ')) for l in open(ctx.replay)):
         load_stream(ctx, replay=ctx.replay)          # a replay file of the load stream
         if not proofs_ok:
             lib.proof_failed(ctx, 'Scalibr.Properties.C06')
@@ -230,7 +231,8 @@ def _tree_text(case, files, defaults):
         return 'tree: ' + case
     odd = ['%s=%s' % (files[k], VARIANT.get(c, c)) for k, c in enumerate(t[3]) if c != defaults[k]]
     return 'route=%s (%s); tree = every production file valid, -wal/-shm/-journal absent, except: %s' % (
-        t[1], 'real directory root' if t[1] == 'r' else 'virtual FS', '; '.join(odd) or '(nothing: the pristine tree)')
+        t[1], {'r': 'real directory root', 'v': 'virtual FS', 'w': 'real directory root, Windows capabilities', 'x': 'virtual FS, Windows capabilities',
+               'm': 'real directory root, macOS capabilities', 'n': 'virtual FS, macOS capabilities'}.get(t[1], t[1]), '; '.join(odd) or '(nothing: the pristine tree)')
 
 
 def _rpm_sqlite_class(case, f, files):
@@ -316,50 +318,106 @@ def scan_stream(ctx, replay=None):
 KIND = {'c': 'a regular file followed by an entry beneath it', 't': 'archive cut inside an entry body', 'h': 'archive cut inside a header',
         'l': 'symlink with an empty link name', 'n': 'a name longer than NAME_MAX', 'd': 'file at a path that is already a directory (skipped)',
         'b': 'file of exactly MaxFileBytes (fail-open)', 'o': 'symlink pointing outside the root (fail-open)', 'u': 'unsupported entry type (skipped)',
-        'v': 'invalid config (fails before any directory exists)', '-': 'nothing wrong'}
+        'v': 'invalid config (fails before any directory exists)', '-': 'nothing wrong',
+        'e': 'Uncompressed() of the layer returns an error', 'p': 'os.Mkdir of the first layer directory fails (TMPDIR at the edge of PATH_MAX)',
+        'm': 'os.MkdirTemp fails (TMPDIR does not exist)', 'y': 'v1.Image.Layers() returns an error'}
+# which exit of FromV1Image a kind takes (Model/ImageLife.lean: Run / LayerRun fields)
+EXIT = {'v': 'pre', 'y': 'pre', 'm': 'mktemp', 'p': 'mkdir', 'e': 'opened', 'c': 'filled', 't': 'filled', 'h': 'filled', 'l': 'filled', 'n': 'filled'}
+
+
+def _model_only_runs():
+    """every exit of the loader model, also the two no input reaches (root, haveLayer), each with 0..2 directories already in TMPDIR:
+    `run <pre><mktemp><root> <layers newest first: empty mkdir haveLayer opened filled> <decoys>` with the outcome the property asks for"""
+    ok, out = '01111', []
+    for decoys in (0, 1, 2):
+        for flags, layers, err in (('011', ok, 1), ('101', ok, 1), ('110', ok, 1), ('111', '-', 0), ('111', ok, 0), ('111', '11111', 0), ('111', '10000', 0)):
+            out.append(('run %s %s %d' % (flags, layers, decoys), err, decoys))
+        for nbefore in (0, 1, 2):
+            for nafter in (0, 1):
+                for field in range(1, 5):                      # mkdir haveLayer opened filled
+                    bad = ''.join('0' if i == field else c for i, c in enumerate(ok))
+                    ls = [ok] * nbefore + ['10000'] * (nbefore % 2) + [bad] + [ok] * nafter
+                    out.append(('run 111 %s %d' % (','.join(ls), decoys), 1, decoys))
+                out.append(('run 111 %s %d' % (','.join([ok] * (nbefore + nafter + 1)), decoys), 0, decoys))
+    return out
 
 
 def load_stream(ctx, replay=None):
-    """the temp-dir life cycle of image.FromV1Image / CleanUp (load path of C06): correspondence with Model/ImageLife.lean and,
-    as the oracle, the property's sentence itself on the implementation's reply"""
+    """the temp-dir life cycle of image.FromV1Image / CleanUp (load path of C06) and its containment under hostile archives:
+    correspondence with Model/ImageLife.lean and, as the oracle, the property's sentence itself on the implementation's reply"""
     binary = ctx.go_build('c06load')
     if binary is None:
         ctx.violation('harness c06load does not build against /repo: %s' % getattr(ctx, 'go_log', '')[-1500:], ['# c06load'], found_input=False, name='build-c06load')
         return
-    args = ['-replay', replay] if replay else ['-seed', str(ctx.seed), '-n', str({'quick': 200, 'thorough': 3000}[ctx.tier])]
+    args = ['-replay', replay] if replay else ['-seed', str(ctx.seed), '-n', str({'quick': 1200, 'thorough': 20000}[ctx.tier])]
     rows, ok = ctx.run_gen(binary, args, timeout=3000)
     if not ok:
         ctx.violation('c06load crashed: ' + '; '.join(ctx.notes[-1:]), ['# see notes'], found_input=False, name='gencrash-c06load')
     model = ctx.run_driver('drv_c06l', [c for c, _ in rows]) if rows else []
     reported, mism = 0, 0
+    stats = collections.Counter()
     for (case, reply), mod in zip(rows, model):
         f, m = lib.fields(reply), lib.fields(mod)
         t = case.split(' ')
-        ctx.add_case(case, t[2] != '-', 'load kind=%s err=%s' % (t[3] if len(t) > 3 else '?', f.get('err', reply)))
+        if t[0] == 'load':
+            t = ['load2', 'L' * int(t[1]), t[2], t[3], t[4], '0', '0']
+        hist, fail, kind, pos, decoys, seed = t[1], t[2], t[3], t[4], t[5], t[6]
+        hostile = seed != '0'
+        ctx.add_case(case, fail != '-' or kind != '-' or hostile, 'load kind=%s hostile=%d err=%s' % (kind, hostile, f.get('err', reply)))
+        stats['loads'] += 1
+        stats['loads with hostile entries in every archive'] += hostile
+        stats['loads with directories already in TMPDIR'] += decoys != '0'
+        stats['loads with empty-layer history entries'] += 'E' in hist
+        if f.get('err') == '1':
+            stats['failed loads, exit ' + EXIT.get(kind, '?')] += 1
         what = None
         if f.get('_') == 'panic':
             what = 'FromV1Image / CleanUp panicked'
-        elif f.get('err') == '1' and f.get('left') != '0':
-            what = 'a FAILED load left %s entr%s in TMPDIR (%s)' % (f.get('left'), 'y' if f.get('left') == '1' else 'ies', ','.join(_dec_items(f.get('names'))))
-        elif f.get('err') == '0' and (f.get('img') != '1' or f.get('left') != '1'):
-            what = 'after a successful load TMPDIR holds %s entries and the image directory %s' % (f.get('left'), 'exists' if f.get('img') == '1' else 'is not below TMPDIR')
-        elif f.get('clean') != '0':
-            what = 'after CleanUp TMPDIR still holds %s entries (%s)' % (f.get('clean'), ','.join(_dec_items(f.get('names'))))
+        elif f.get('err') == '1' and f.get('left') != decoys:
+            what = 'a FAILED load left TMPDIR with %s entries instead of the %s it had (%s)' % (f.get('left'), decoys, ','.join(_dec_items(f.get('names'))))
+        elif f.get('err') == '0' and (f.get('img') != '1' or f.get('left') != str(int(decoys) + 1)):
+            what = 'after a successful load TMPDIR holds %s entries (it had %s) and the image directory %s' % (
+                f.get('left'), decoys, 'exists' if f.get('img') == '1' else 'is not below TMPDIR')
+        elif f.get('clean') != decoys:
+            what = 'after CleanUp TMPDIR holds %s entries instead of the %s it had (%s)' % (f.get('clean'), decoys, ','.join(_dec_items(f.get('names'))))
         elif f.get('out') != '-':
-            what = 'the load changed something outside its directory (working directory / sibling of TMPDIR)'
-        desc = 'image of %s layer(s); layer %s: %s, after %s good entries' % (t[1], t[2], KIND.get(t[3], t[3]), t[4]) if len(t) == 5 else case
+            what = 'the load changed something outside the image directory: ' + _unhex(f.get('out'))
+        elif f.get('esc', '-') != '-':
+            what = 'the image directory holds an object that leads out of it: ' + _unhex(f.get('esc'))
+        desc = 'chain layers %s (L archive, E empty-layer entry), %s director%s already in TMPDIR; layer %s: %s, after %s good entries; %s' % (
+            hist, decoys, 'y' if decoys == '1' else 'ies', fail, KIND.get(kind, kind), pos,
+            'hostile entries (names with .., absolute paths into the sandbox, links out and writes through them; seed %s) in every archive' % seed
+            if hostile else 'benign entries otherwise')
         if what:
             if reported < 3:
                 reported += 1
-                ctx.violation('image load life cycle: %s. %s' % (what, desc), ['# ' + desc, case + '\t' + reply + '\t' + mod])
+                ctx.violation('image load: %s. %s' % (what, desc), ['# ' + desc, case + '\t' + reply + '\t' + mod])
             continue
-        if any(f.get(k) != m.get(k) for k in ('err', 'left', 'img', 'clean')):
+        if any(f.get(k) != m.get(k) for k in ('err', 'left', 'img', 'clean')) or m.get('others') != '1':
             mism += 1
             ctx.mismatches.append(case)
             if mism == 1:
                 ctx.violation('correspondence c06load/drv_c06l no longer checks (%s): implementation %s, model %s' % (desc, reply, mod),
                               [case + '\t' + reply + '\t' + mod], found_input=False, name='corr-c06load')
-    ctx.extra['load_observation'] = ('%d image loads, each with a fresh TMPDIR and working directory: every combination of 1..4 layers x failing layer x '
-                                     '{file-then-child, cut body, cut header, empty link name, over-long name, and the fail-open / skipped kinds} x 0..2 good '
-                                     'entries first, plus random ones; a failed load must leave TMPDIR empty, a successful one exactly the image directory and '
-                                     'nothing after CleanUp, and nothing outside may change' % len(rows))
+    # the exits no input reaches (addRootDirectoryToChainLayers fails, v1LayerIndex < 0), and all the others once more, on the model alone
+    if not replay:
+        runs = _model_only_runs()
+        for (case, err, decoys), mod in zip(runs, ctx.run_driver('drv_c06l', [c for c, _, _ in runs])):
+            m = lib.fields(mod)
+            stats['model-only runs (every exit of Model/ImageLife.lean)'] += 1
+            want = {'err': str(err), 'left': str(decoys + (1 - err)), 'img': str(1 - err), 'clean': str(decoys), 'others': '1'}
+            if any(m.get(k) != v for k, v in want.items()):
+                ctx.violation('drv_c06l contradicts C06_load_failed_restores / C06_load_cleanup_restores / C06_load_others_untouched on %s: %s' % (case, mod),
+                              [case + '\t-\t' + mod], found_input=False, name='model-c06load')
+    ctx.extra['load_judged'] = dict(sorted(stats.items()))
+    ctx.extra['load_observation'] = ('%d image loads, each in a fresh sandbox {TMPDIR, working directory, sibling of TMPDIR, victim directory} snapshotted recursively '
+                                     '(type, mode, size, mtime, content hash, link target) before the load, after it (minus the image directory) and after CleanUp: '
+                                     'every combination of 1..4 layers x failing layer x {file-then-child, cut body, cut header, empty link name, over-long name, '
+                                     'Uncompressed() error, and the fail-open / skipped kinds} x 0..2 good entries first; Layers() error, invalid config, MkdirTemp '
+                                     'failure, Mkdir failure of the layer directory; empty-layer history entries; 0..2 directories already in TMPDIR (one named like an '
+                                     'image directory); random ones, three quarters with hostile entries in every archive (names built from .., ., empty segments, '
+                                     'absolute paths of the victim / TMPDIR / working directory, layer-<i> look-alikes; symbolic and hard links to those places followed '
+                                     'by files, directories and links written through them; any order). A failed load must leave TMPDIR as it was, a successful one '
+                                     'adds exactly the image directory, CleanUp removes it, nothing else in the sandbox may change at any point, and nothing inside '
+                                     'the image directory may lead out of it. The exits no input reaches (root node insertion, v1 layer index) are run on the model only. '
+                                     'STREAM ONLY for containment: Model/ImageLife.lean has no entry names; the theorems cover the life cycle' % len(rows))
